@@ -772,6 +772,43 @@ def run(check):
 
 
 def replay(check, path):
+    """re-run one recorded case against the implementation; exit 1 iff the violation reproduces"""
+    from lxml import etree
     r = json.load(open(path))
-    print(json.dumps(r, indent=1)[:3000])
-    return 0
+    rp = r.get('replay', r)
+    print('key :', r.get('key'))
+    print('what:', (r.get('what') or '')[:600])
+    if 'broken' in rp:
+        print(json.dumps(rp, indent=1)[:4000])
+        return 1
+    desc = rp['universe']
+    if isinstance(desc, str) and desc.startswith('corpus:'):
+        desc = [d for t, d, _ in corpus() if t == desc.split(':', 1)[1]][0]
+    W = World(check.rng, desc, rp.get('proto', 'xml'))
+    if rp['kind'] == 'compile' or W.compile_error:
+        print('schema compiles:', W.compile_error is None, W.compile_error or '')
+        return 1 if W.compile_error else 0
+    bad = 0
+    if rp['kind'] == 'emitted':
+        v, cid = rp['value'], rp['cid']
+        req = W.request(cid, v)
+        ok, msg = W.lxml_ok(payload(W.proto, req))
+        print('request :', req.decode('utf8', 'replace'))
+        print('  lxml valid:', ok, msg or '')
+        lv, sv = verdict(W.app_l, req), verdict(W.app_s, req)
+        print('  verdicts: lxml', lv, 'soft', sv)
+        bad += (not ok) + (accepted(lv) != accepted(sv))
+        ctx, calls, out = serve(W.app_n, req, ret=G.to_native(desc, W.classes, v))
+        if calls:
+            ok, msg = W.lxml_ok(payload(W.proto, out))
+            print('response:', out.decode('utf8', 'replace'))
+            print('  lxml valid:', ok, msg or '')
+            bad += (not ok)
+    elif rp['kind'] == 'verdict':
+        body = rp['doc'].encode('utf8')
+        lv, sv = verdict(W.app_l, body), verdict(W.app_s, body)
+        print('document:', rp['doc'])
+        print('  verdicts: lxml', lv, 'soft', sv, 'notes', rp.get('notes'))
+        bad += (accepted(lv) != accepted(sv)) or lv[0] == 'crash' or sv[0] == 'crash'
+    print('reproduces' if bad else 'does not reproduce')
+    return 1 if bad else 0
